@@ -219,10 +219,20 @@ def execute(behaviours, d, workers=4, timeout=900):
     with concurrent.futures.ThreadPoolExecutor(len(chunks) or 1) as ex:
         results = list(ex.map(_go_run, [(c, d, i, timeout) for i, c in enumerate(chunks)]))
     stuck = []
-    for (rc, out, wall, lines), chunk in zip(results, chunks):
+    for n, ((rc, out, wall, lines), chunk) in enumerate(zip(results, chunks)):
         execute.wall = max(execute.wall, wall)
         if rc != 0 or 'VERIF-X03 behaviours=' not in out:
-            raise core.Inconclusive('harness failed rc=%s: %s' % (rc, out[-3000:]))
+            # a process that died of the machine's load (connection timeouts ...): the behaviours it did not
+            # finish are run once more, on their own
+            core.log('harness process failed (rc=%s), repeating its unfinished behaviours: %s' % (rc, out[-300:]))
+            done = {ln['t'] for ln in lines if ln['a'] == 'Quiet'}
+            lines = [ln for ln in lines if ln['t'] in done]
+            rest = [b for b in chunk if b['id'] not in done]
+            rc, out, wall, more = _go_run((rest, d, 50 + n, timeout))
+            execute.wall += wall
+            if rc != 0 or 'VERIF-X03 behaviours=' not in out:
+                raise core.Inconclusive('harness failed rc=%s: %s' % (rc, out[-3000:]))
+            lines += more
         for ln in lines:
             by_t.setdefault(ln['t'], []).append(ln)
         stuck += [int(x) for x in re.findall(r'VERIF-X03-STUCK behaviour=(\d+)', out)]
